@@ -67,3 +67,20 @@ pub fn to_vec_len_only_stub<T: Clone>(_s: &[T]) -> Vec<T> {
 pub fn from_utf8_trust_stub(_v: Vec<u8>) -> Result<String, std::string::FromUtf8Error> {
     Ok(String::new())
 }
+
+/// `<[T]>::to_vec` with bound 8 (names like "v/usize").
+pub fn to_vec_stub8<T: Clone>(s: &[T]) -> Vec<T> {
+    let n = s.len();
+    assert!(n <= 8, "VERIF: bound exceeded: to_vec length");
+    let mut v: Vec<T> = Vec::with_capacity_in(8, std::alloc::Global);
+    let p = v.as_mut_ptr();
+    let mut i = 0;
+    while i < 8 {
+        if i < n {
+            unsafe { p.add(i).write(s[i].clone()) };
+        }
+        i += 1;
+    }
+    unsafe { v.set_len(n) };
+    v
+}
